@@ -100,7 +100,12 @@ Definition dispatch (fn : Z) (a : sexp) : sexp :=
   | 7%Z =>
     match scanner_required (d_str (d_nth a 0)) (d_str (d_nth a 1)) (d_fname (d_nth a 2)) 0 with
     | inl tok => L [A 0%Z; e_str tok]
-    | inr e => L [A 1%Z; enc_kind (e_kind e); enc_ctx (e_ctx e); e_str (e_msg e); e_res e_str (format_error e k_error)]
+    | inr e =>
+      (* what a user can observe of the error: lineno, get_context(), format_error *)
+      L [A 1%Z;
+         e_opt e_Z (match e_kind e with SSyntax _ l => l | SAux l => l | SPlain => None end);
+         e_res (e_opt e_str) (err_context e);
+         e_res e_str (format_error e k_error)]
     end
   | 8%Z => e_list e_str (splitlines (d_bool (d_nth a 0)) (d_str (d_nth a 1)))
   | 9%Z => e_str (Z_to_str (d_Z a))
